@@ -66,7 +66,7 @@ var updMatrixWide = []string{"", "true", "clean", "yes", "TRUE", "1", "true ", "
 func init() {
 	for _, id := range []string{"C01", "C02", "C03", "C04", "C16", "C17", "C18", "C19"} {
 		// all but C03 (whose state key includes the registry) repeat their enumeration with unrelated calls interposed
-		reg(&propInfo{id: id, engine: "inproc", pkg: "snaps", level: "model_checking", disturb: id != "C03"})
+		reg(&propInfo{id: id, engine: "inproc", pkg: "snaps", level: "model_checking", disturb: id != "C03", racePass: id == "C18"})
 	}
 	// C09: "in every other mode no entry or file is removed" — other modes include the spellings a lenient boolean parser accepts
 	reg(&propInfo{id: "C09", engine: "inproc", pkg: "snaps", level: "model_checking", envMatrix: append(append([]string{}, updMatrix...), "1", "TRUE", "t"), shardsQ: 2, shardsT: 4})
@@ -77,7 +77,7 @@ func init() {
 	reg(&propInfo{id: "C12", engine: "inproc", pkg: "snaps", level: "model_checking", racePass: true})
 	reg(&propInfo{id: "C20", engine: "inproc", pkg: "snaps", level: "model_checking", racePass: true, envMatrix: updMatrix, shardsQ: 2, shardsT: 4})
 	reg(&propInfo{id: "C13", engine: "inproc", pkg: "snaps", level: "exploration"})
-	reg(&propInfo{id: "C14", engine: "inproc", pkg: "snaps", level: "exploration", disturb: true})
+	reg(&propInfo{id: "C14", engine: "inproc", pkg: "snaps", level: "exploration", disturb: true, racePass: true})
 	reg(&propInfo{id: "C15", engine: "inproc", pkg: "snaps", level: "exploration"})
 	reg(&propInfo{id: "C08", engine: "e3", level: "model_checking"})
 	reg(&propInfo{id: "C11", engine: "e3", level: "model_checking"})
@@ -287,7 +287,11 @@ func runShards(bin string, p *propInfo, tier string, seed int, scratch, replay s
 			outp := filepath.Join(scratch, fmt.Sprintf("res%s%d.json", mode, i))
 			cmd := exec.Command("timeout", "-k", "10", fmt.Sprint(int(to.Seconds())+30), bin,
 				"-test.run", "^TestVerifDriver$", "-test.count", "1", "-test.timeout", to.String())
-			cmd.Dir = wdir
+			// the working directory is deliberately much deeper than any test file's directory: a path that is
+			// relative to the test file and wrongly resolved against the working directory then lands somewhere else
+			cwd := filepath.Join(wdir, "cwd", "x", "y", "z")
+			os.MkdirAll(cwd, 0o755)
+			cmd.Dir = cwd
 			env := []string{
 				"PATH=" + os.Getenv("PATH"), "HOME=" + os.Getenv("HOME"), "NO_COLOR=1",
 				"VERIF_PROP=" + prop, "VERIF_TIER=" + tier, fmt.Sprintf("VERIF_SHARD=%d/%d", i/max(len(matrix), 1), sub),
